@@ -1,6 +1,7 @@
 package allocator
 
 import (
+	"fmt"
 	"net"
 	"net/netip"
 	"sort"
@@ -426,6 +427,18 @@ func (r *Registry) ReservePD(prefix *net.IPNet, sessionID string) error {
 			return alloc.Reserve(prefix, sessionID)
 		}
 	}
+	return r.pdOverlapLocked(prefix)
+}
+
+// pdOverlapLocked refuses a prefix that is no delegation of any pool but overlaps
+// the network of one: the pool cannot track it and would delegate prefixes that
+// overlap it to other subscribers. Callers hold r.mu.
+func (r *Registry) pdOverlapLocked(prefix *net.IPNet) error {
+	for name, alloc := range r.pdAllocators {
+		if alloc.Overlaps(prefix) {
+			return fmt.Errorf("prefix %s overlaps delegation pool %s without being one of its delegations", prefix, name)
+		}
+	}
 	return nil
 }
 
@@ -486,7 +499,7 @@ func (r *Registry) ReservePDInPool(poolKey string, prefix *net.IPNet, sessionID 
 			return alloc.Reserve(prefix, sessionID)
 		}
 	}
-	return nil
+	return r.pdOverlapLocked(prefix)
 }
 
 // ReleaseIPInPool releases ip from the allocator ReserveIPInPool reserves it in:
